@@ -187,9 +187,9 @@ class Sched:
             ts.go.release()
             me.go.acquire()
             if self.aborting:
-                if me.blocked_on is not None and not me.blocked_on():
-                    me.blocked_on = None
-                    self._raise_abort(me)
+                # released by a tear-down (deadlock, budget, end of run), not by a scheduling decision: unwind
+                me.blocked_on = None
+                self._raise_abort(me)
         me.blocked_on = None
         me.deadline = None
         return not me.timed_out
